@@ -53,9 +53,25 @@ freeEntCache(struct AdfCacheEntry *cEntry)
  *
  * replace 'adfGetDirEnt'. returns a the dir contents based on the dircache list
  */
+static struct AdfList * adfGetDirEntCacheBudget_ ( struct AdfVolume * const vol,
+                                                   const SECTNUM            dir,
+                                                   const BOOL               recurs,
+                                                   int32_t * const          budget );
+
 struct AdfList * adfGetDirEntCache ( struct AdfVolume * const vol,
                                      const SECTNUM            dir,
                                      const BOOL               recurs )
+{
+    /* cache blocks and records of a volume are fewer than its blocks: the
+       budget stops the walk on cyclic cache chains and directory cycles */
+    int32_t budget = vol->lastBlock - vol->firstBlock + 1;
+    return adfGetDirEntCacheBudget_ ( vol, dir, recurs, &budget );
+}
+
+static struct AdfList * adfGetDirEntCacheBudget_ ( struct AdfVolume * const vol,
+                                                   const SECTNUM            dir,
+                                                   const BOOL               recurs,
+                                                   int32_t * const          budget )
 {
 	struct bEntryBlock parent;
 	struct bDirCacheBlock dirc;
@@ -74,8 +90,15 @@ struct AdfList * adfGetDirEntCache ( struct AdfVolume * const vol,
     do {
         /* one loop per cache block */
         n = offset = 0;
-	    if (adfReadDirCBlock(vol, nSect, &dirc)!=RC_OK)
+        if ( --(*budget) < 0 ) {
+            (*adfEnv.wFct)("adfGetDirEntCache : more cache blocks than blocks (cycle?)");
+            adfFreeDirList(head);
             return NULL;
+        }
+	    if (adfReadDirCBlock(vol, nSect, &dirc)!=RC_OK) {
+            adfFreeDirList(head);
+            return NULL;
+        }
         while (n<dirc.recordsNb) {
             /* one loop per record */
             entry = ( struct AdfEntry * ) malloc ( sizeof ( struct AdfEntry ) );
@@ -122,7 +145,7 @@ struct AdfList * adfGetDirEntCache ( struct AdfVolume * const vol,
             }
 
             if (recurs && entry->type==ST_DIR)
-                 cell->subdir = adfGetDirEntCache(vol,entry->sector,recurs);
+                 cell->subdir = adfGetDirEntCacheBudget_(vol,entry->sector,recurs,budget);
 
             n++;
         }
